@@ -850,7 +850,7 @@ class DnsRecordTxtValueSpf(ParsableBase, Serializable):
         )))
     )
     version = attr.ib(
-        default=DnsRecordTxtValueSpfVersion(SpfVersion.SPF1),
+        default=attr.Factory(lambda: DnsRecordTxtValueSpfVersion(SpfVersion.SPF1)),
         converter=DnsRecordTxtValueSpfVersion.convert,
         validator=attr.validators.instance_of(DnsRecordTxtValueSpfVersion)
     )
